@@ -233,6 +233,10 @@ class SCCReader(BaseReader):
         if not isinstance(content, str):
             raise InvalidInputError("The content is not a unicode string.")
 
+        # A reader object can be used for several documents: forget the
+        # captions, buffers and position left over from the previous one
+        SCCReader.__init__(self)
+
         self.simulate_roll_up = simulate_roll_up
         self.time_translator.offset = offset * 1000000
         # split lines
